@@ -68,13 +68,13 @@ def gen_program(rng):
             prog[-1]["dgms"][0].append([a, a + (nn - 1) * s])   # a bar spanning the grid: the sampled landscape is never the "empty" sentinel
         else:
             rows = [[0] + [rng.randint(-2, 5) for _ in range(nn - 2)] + [0] for _ in range(rng.randint(1, 3))]
-            prog.append(dict(op="new_approx_vals", vals=rows, hom=0, grid=[a, s, nn], res=[n]))
+            prog.append(dict(op="new_approx_vals", vals=rows, hom=0, grid=[a, s, nn], res=[n], int=int(rng.random() < 0.5)))
         approx.append(n)
     # an approx on another grid (for snap / lc) and odd ones for rejections
     og = new(); s2 = rng.choice([1, 2]); n2 = rng.randint(3, 7); a2 = a + rng.choice([-2, 0, 1, 3])
     if (a2, s2, n2) == (a, s, nn):
         n2 += 1
-    prog.append(dict(op="new_approx_vals", vals=[[0] + [rng.randint(0, 4) for _ in range(n2 - 2)] + [0]], hom=0, grid=[a2, s2, n2], res=[og]))
+    prog.append(dict(op="new_approx_vals", vals=[[0] + [rng.randint(0, 4) for _ in range(n2 - 2)] + [0]], hom=0, grid=[a2, s2, n2], res=[og], int=int(rng.random() < 0.5)))
     oh = new()
     prog.append(dict(op="new_exact_cp", cps=rand_cp(rng, 0, 6), hom=1, res=[oh]))
     fr = 0
@@ -133,6 +133,9 @@ def to_job(prog, e):
             j["cps"] = [[[e.f(x), float(e.s * y)] for x, y in d] for d in ins["cps"]]
         if "vals" in ins:
             j["vals"] = [[float(e.s * y) for y in row] for row in ins["vals"]]
+            if ins.get("int") and all(float(v).is_integer() and abs(v) < 2 ** 40 for row in j["vals"] for v in row):
+                j["vals"] = [[int(v) for v in row] for row in j["vals"]]   # integer-dtype values array (as in literal landscapes)
+                j["int"] = 1
         if "grid" in ins:
             a, s, n = ins["grid"]
             j["start"], j["stop"], j["n"] = e.f(a), e.f(a + (n - 1) * s), n
